@@ -63,8 +63,24 @@ pub struct Rendered {
 /// Render a function `f` with the given constants (each `const n: i32 = 7;`),
 /// parameters (each `n: i32`, one per line) and body items.
 pub fn render(items: &[Item], consts: &[String], params: &[String]) -> Rendered {
+    render_with_decoy(items, consts, params, &[])
+}
+
+/// As `render`, preceded by a function `decoy` that declares the given labels: labels of another
+/// function must never be legal targets (C04 "into another function").
+pub fn render_with_decoy(items: &[Item], consts: &[String], params: &[String], decoy: &[String]) -> Rendered {
     let mut src = String::new();
     let mut line = 0;
+    if !decoy.is_empty() {
+        src.push_str("fn decoy()\n{\n");
+        line += 2;
+        for l in decoy {
+            src.push_str(&format!("{l}:\n"));
+            line += 1;
+        }
+        src.push_str("}\n");
+        line += 1;
+    }
     let mut const_lines = Vec::new();
     let mut param_lines = Vec::new();
     for c in consts {
@@ -178,6 +194,7 @@ pub fn project(source: &str, declarations: &[Declaration]) -> Option<Projection>
     for d in declarations {
         match d {
             Declaration::Constant { name, .. } => consts.push((name.name.clone(), name.location.line_number)),
+            Declaration::Function { name, .. } if name.name == "decoy" => continue,
             Declaration::Function { parameters, body: Ok(body), .. } if !seen_fn => {
                 seen_fn = true;
                 for par in parameters {
